@@ -76,6 +76,9 @@ def gen_document(rng):
     nfiles = rng.randrange(1, 4)
     files = []
     varnames = ["va", "vb", "vc", "vd"]
+    if rng.random() < 0.3:
+        # names that start with a digit, an underscore or a letter beyond ASCII (word characters all the same)
+        varnames = rng.sample(["2nd", "\u0394p", "\u00f6l", "_u", "v_1", "9k", "x\u00e4"], 4)
     used = []
     for i in range(nfiles):
         c = {}
